@@ -90,6 +90,9 @@ def do_replay(pid, mod, path):
     with open(path) as fh:
         rep = json.load(fh)
     case = rep["case"]
+    if case is None:
+        print("replay %s: %s (no single case: re-run the check)" % (path, "; ".join(rep.get("messages", []))))
+        return 2
     obs = []
     for _ in range(2):
         rec = ex.run_one(mod, case)
@@ -130,7 +133,20 @@ def main(argv=None):
         print("%s %s seed=%d cases=%d" % (pid, a.tier, seed, n))
         return 0
     t0 = time.time()
-    summ = ex.explore(modname, a.tier, seed, a.jobs)
+    try:
+        summ = ex.explore(modname, a.tier, seed, a.jobs)
+    except ex.ExplorationTimeout as exc:
+        # a hang (or a slow-down by more than an order of magnitude) of the code under test on some case of the space is reported
+        # as a violation: every case terminates within seconds on a tree where the property holds
+        rdir = os.path.join(HERE, "replays", pid)
+        os.makedirs(rdir, exist_ok=True)
+        path = os.path.join(rdir, "timeout-%s.json" % a.tier)
+        with open(path, "w") as fh:
+            json.dump(dict(property=pid, tier=a.tier, seed=seed, case=None,
+                           messages=["%s; on the unchanged tree this tier finishes in well under a tenth of that" % exc]), fh, indent=1)
+        print("%s tier=%s seed=%d: %s" % (pid, a.tier, seed, exc))
+        print("VIOLATION property=%s replay=%s" % (pid, path))
+        return 1
     unknown = summ["viol"]
     hits = [dict(id=fid, count=n, what=fnd.describe(pid, fid)) for fid, n in sorted(summ["known"].items())]
     # replays for unknown violations
